@@ -2,25 +2,7 @@
 open Sexp
 open Conv
 
-let handlers : (string, Sexp.t -> Sexp.t) Hashtbl.t = Hashtbl.create 16
-let register name f = Hashtbl.replace handlers name f
 
-(* ---- alloc: (alloc <amt> ((spec n d)|(rem) ...)) -> (ok (parts...)) | (err kind) ---- *)
-let () = register "alloc" (fun c ->
-  match c with
-  | L [A "alloc"; amt; L ps] ->
-    let portion = function
-      | L [A "spec"; n; d] -> Model.Specific { Model.qnum = zarg n; Model.qden = pos_of_z (BigZ.of_string (atom d)) }
-      | L [A "rem"] -> Model.Remaining
-      | _ -> failwith "bad portion" in
-    (match Model.new_allotment_checked (List.map portion ps) with
-     | Model.Inl Model.TwoRemaining -> L [A "err"; A "two_remaining"]
-     | Model.Inl Model.Exceeded -> L [A "err"; A "exceeded"]
-     | Model.Inl Model.BadPortion -> L [A "err"; A "portion"]
-     | Model.Inr a -> L [A "ok"; L (List.map zout (Model.allocate (zarg amt) a))])
-  | _ -> failwith "bad alloc case")
-
-let () = register "hist" Histrun.run_hist
 
 let () =
   let cmd = Sys.argv.(1) in
